@@ -51,13 +51,13 @@ VARIABLES
   slock,    \* [Disp -> [shard -> 0 (free) or <<kind, proc>>]]
   store,    \* [Disp -> [Keys -> record or NoRec]]
   pc, rkey, rdisp, rmeth, rent, rst, rresp, rout, rttl, rsend, rver,
-  ppc, pkey, ptodo, pcur,
+  ppc, pkey, ptodo, pcur, pall,
   starts, nver, purges, kills, drops,
   obs
 
 vars == <<now, ticks, lru, ent, est, nextEnt, elock, slock, store,
           pc, rkey, rdisp, rmeth, rent, rst, rresp, rout, rttl, rsend, rver,
-          ppc, pkey, ptodo, pcur, starts, nver, purges, kills, drops, obs>>
+          ppc, pkey, ptodo, pcur, pall, starts, nver, purges, kills, drops, obs>>
 
 O == INSTANCE Obs
 
@@ -101,6 +101,7 @@ Init ==
   /\ pkey = [p \in Purgers |-> CHOOSE k \in Keys : TRUE]
   /\ ptodo = [p \in Purgers |-> <<>>]
   /\ pcur = [p \in Purgers |-> CHOOSE d \in Disp : TRUE]
+  /\ pall = [p \in Purgers |-> {}]
   /\ starts = 0 /\ nver = 0 /\ purges = 0 /\ kills = 0 /\ drops = 0
   /\ obs = O!ObsInit(DK)
 
@@ -111,7 +112,7 @@ Remove(s, x) == SelectSeq(s, LAMBDA y : y # x)
 Front(s, x) == <<x>> \o Remove(s, x)
 
 ReqVars == <<rkey, rdisp, rmeth>>
-PurgeVars == <<ppc, pkey, ptodo, pcur>>
+PurgeVars == <<ppc, pkey, ptodo, pcur, pall>>
 CountVars == <<starts, nver, purges, kills, drops>>
 ClockVars == <<now, ticks>>
 
@@ -123,7 +124,7 @@ Tick(j) ==
   /\ now' = now + j /\ ticks' = ticks + 1
   /\ UNCHANGED <<lru, ent, est, nextEnt, elock, slock, store,
                  pc, rkey, rdisp, rmeth, rent, rst, rresp, rout, rttl, rsend, rver,
-                 ppc, pkey, ptodo, pcur, starts, nver, purges, kills, drops, obs>>
+                 ppc, pkey, ptodo, pcur, pall, starts, nver, purges, kills, drops, obs>>
 
 (* the store loses a record (badger TTL / GC) *)
 StoreDrop(d, k) ==
@@ -133,7 +134,7 @@ StoreDrop(d, k) ==
   /\ drops' = drops + 1
   /\ UNCHANGED <<now, ticks, lru, ent, est, nextEnt, elock, slock,
                  pc, rkey, rdisp, rmeth, rent, rst, rresp, rout, rttl, rsend, rver,
-                 ppc, pkey, ptodo, pcur, starts, nver, purges, kills, obs>>
+                 ppc, pkey, ptodo, pcur, pall, starts, nver, purges, kills, obs>>
 
 (* kill -9 followed by a restart on the same store *)
 Kill ==
@@ -150,7 +151,7 @@ Kill ==
   /\ ptodo' = [p \in Purgers |-> <<>>]
   /\ obs' = G(O!OKill(obs))
   /\ UNCHANGED <<now, ticks, nextEnt, store, rkey, rdisp, rmeth, rent, rst, rresp, rout, rttl, rver,
-                 pkey, pcur, starts, nver, purges, drops>>
+                 pkey, pcur, pall, starts, nver, purges, drops>>
 
 -----------------------------------------------------------------------------
 (* a request: server/cache.go NewCache *)
@@ -167,7 +168,7 @@ Start(r, k, d, m) ==
   /\ pc' = [pc EXCEPT ![r] = IF m \in O!CacheMethods THEN "lookup.lock" ELSE "next"]
   /\ obs' = G(O!OStart(obs, r, k, d, m))
   /\ UNCHANGED <<now, ticks, lru, ent, est, nextEnt, elock, slock, store, rttl, rsend,
-                 ppc, pkey, ptodo, pcur, nver, purges, kills, drops>>
+                 ppc, pkey, ptodo, pcur, pall, nver, purges, kills, drops>>
 
 (* dispatcher.go GetHTTPCache: the whole body runs under the shard lock *)
 Lookup(r) ==
@@ -193,7 +194,7 @@ Lookup(r) ==
           /\ nextEnt' = nextEnt + 1
   /\ pc' = [pc EXCEPT ![r] = "get.lock"]
   /\ UNCHANGED <<now, ticks, elock, slock, store, rkey, rdisp, rmeth, rst, rresp, rout, rttl, rsend, rver,
-                 ppc, pkey, ptodo, pcur, starts, nver, purges, kills, drops>>
+                 ppc, pkey, ptodo, pcur, pall, starts, nver, purges, kills, drops>>
 
 (* http_cache.go initFromStore + FromBytes: what the entry looks like after reading result `res` *)
 Loaded(E, rec, res) ==
@@ -236,7 +237,7 @@ GetStep(r, res) ==
                              ELSE "next"]
   /\ obs' = G(o3)
   /\ UNCHANGED <<now, ticks, lru, ent, nextEnt, elock, slock, store, rkey, rdisp, rmeth, rent, rout, rttl, rsend, rver,
-                 ppc, pkey, ptodo, pcur, starts, nver, purges, kills, drops>>
+                 ppc, pkey, ptodo, pcur, pall, starts, nver, purges, kills, drops>>
 
 NextSend(s, rest) ==
   IF rest = <<>> THEN (IF pc[s] \in {"cab.send", "cab.sending"} THEN "cab.save" ELSE "hfp.save")
@@ -255,7 +256,7 @@ ArriveRecv(r) ==
           /\ UNCHANGED <<rsend, obs>>
   /\ UNCHANGED <<now, ticks, lru, ent, est, nextEnt, elock, slock, store,
                  rkey, rdisp, rmeth, rent, rst, rresp, rout, rttl, rver,
-                 ppc, pkey, ptodo, pcur, starts, nver, purges, kills, drops>>
+                 ppc, pkey, ptodo, pcur, pall, starts, nver, purges, kills, drops>>
 
 (* a released waiter: with the repair it goes back to Get's critical section *)
 Woken(r) ==
@@ -263,7 +264,7 @@ Woken(r) ==
   /\ pc' = [pc EXCEPT ![r] = "get.lock"]
   /\ UNCHANGED <<now, ticks, lru, ent, est, nextEnt, elock, slock, store,
                  rkey, rdisp, rmeth, rent, rst, rresp, rout, rttl, rsend, rver,
-                 ppc, pkey, ptodo, pcur, starts, nver, purges, kills, drops, obs>>
+                 ppc, pkey, ptodo, pcur, pall, starts, nver, purges, kills, drops, obs>>
 
 (* code before the repair: two reads without the lock *)
 ReadStatus(r) ==
@@ -273,14 +274,14 @@ ReadStatus(r) ==
   /\ obs' = G(O!OResume(obs, r, est[rent[r]].status))
   /\ UNCHANGED <<now, ticks, lru, ent, est, nextEnt, elock, slock, store,
                  rkey, rdisp, rmeth, rent, rresp, rout, rttl, rsend, rver,
-                 ppc, pkey, ptodo, pcur, starts, nver, purges, kills, drops>>
+                 ppc, pkey, ptodo, pcur, pall, starts, nver, purges, kills, drops>>
 ReadResp(r) ==
   /\ pc[r] = "get.read2"
   /\ rresp' = [rresp EXCEPT ![r] = est[rent[r]].resp]
   /\ pc' = [pc EXCEPT ![r] = IF rst[r] = "hit" THEN "age.lock" ELSE "next"]
   /\ UNCHANGED <<now, ticks, lru, ent, est, nextEnt, elock, slock, store,
                  rkey, rdisp, rmeth, rent, rst, rout, rttl, rsend, rver,
-                 ppc, pkey, ptodo, pcur, starts, nver, purges, kills, drops, obs>>
+                 ppc, pkey, ptodo, pcur, pall, starts, nver, purges, kills, drops, obs>>
 
 (* http_cache.go Age: RLock, own clock read *)
 AgeStep(r) ==
@@ -289,7 +290,7 @@ AgeStep(r) ==
   /\ obs' = G(O!OAge(obs, r, now - est[rent[r]].createdAt, now))
   /\ UNCHANGED <<now, ticks, lru, ent, est, nextEnt, elock, slock, store,
                  rkey, rdisp, rmeth, rent, rst, rresp, rout, rttl, rsend, rver,
-                 ppc, pkey, ptodo, pcur, starts, nver, purges, kills, drops>>
+                 ppc, pkey, ptodo, pcur, pall, starts, nver, purges, kills, drops>>
 
 (* cache.go:113  c.Next(): the request goes to the upstream *)
 UpStart(r) ==
@@ -298,7 +299,7 @@ UpStart(r) ==
   /\ obs' = G(O!OUpStart(obs, r))
   /\ UNCHANGED <<now, ticks, lru, ent, est, nextEnt, elock, slock, store,
                  rkey, rdisp, rmeth, rent, rst, rresp, rout, rttl, rsend, rver,
-                 ppc, pkey, ptodo, pcur, starts, nver, purges, kills, drops>>
+                 ppc, pkey, ptodo, pcur, pall, starts, nver, purges, kills, drops>>
 
 (* the upstream (or the proxy's timer) answers *)
 FetchEnd(r, out, T) ==
@@ -317,7 +318,7 @@ FetchEnd(r, out, T) ==
         ELSE IF out = "cacheable" THEN "cab.lock" ELSE "hfp.lock"]
   /\ UNCHANGED <<now, ticks, lru, ent, est, nextEnt, elock, slock, store,
                  rkey, rdisp, rmeth, rent, rst, rresp, rsend,
-                 ppc, pkey, ptodo, pcur, starts, purges, kills, drops>>
+                 ppc, pkey, ptodo, pcur, pall, starts, purges, kills, drops>>
 
 (* http_cache.go Cacheable: Lock, stamp, publish, take the waiter list *)
 CLock(r) ==
@@ -330,7 +331,7 @@ CLock(r) ==
   /\ pc' = [pc EXCEPT ![r] = IF E.waiters = <<>> THEN "cab.save" ELSE "cab.send"]
   /\ obs' = G(O!OPublish(obs, e, E.disp, E.key, rver[r], now, rttl[r]))
   /\ UNCHANGED <<now, ticks, lru, ent, nextEnt, slock, store, rkey, rdisp, rmeth, rent, rst, rresp, rout, rttl, rver,
-                 ppc, pkey, ptodo, pcur, starts, nver, purges, kills, drops>>
+                 ppc, pkey, ptodo, pcur, pall, starts, nver, purges, kills, drops>>
 
 (* http_cache.go HitForPass (deferred in cache.go:96) *)
 HLock(r) ==
@@ -342,7 +343,7 @@ HLock(r) ==
   /\ pc' = [pc EXCEPT ![r] = IF E.waiters = <<>> THEN "hfp.save" ELSE "hfp.send"]
   /\ obs' = G(O!OHfp(obs, e, E.disp, E.key, now, eff))
   /\ UNCHANGED <<now, ticks, lru, ent, nextEnt, slock, store, rkey, rdisp, rmeth, rent, rst, rresp, rout, rttl, rver,
-                 ppc, pkey, ptodo, pcur, starts, nver, purges, kills, drops>>
+                 ppc, pkey, ptodo, pcur, pall, starts, nver, purges, kills, drops>>
 
 (* the completing request reaches `ch <- struct{}{}` (blocking, unbuffered, under the entry lock):
    the rendezvous completes only with a waiter that is parked at `<-done`; otherwise the sender blocks *)
@@ -357,7 +358,7 @@ SendBegin(s) ==
           /\ UNCHANGED <<rsend, obs>>
   /\ UNCHANGED <<now, ticks, lru, ent, est, nextEnt, elock, slock, store,
                  rkey, rdisp, rmeth, rent, rst, rresp, rout, rttl, rver,
-                 ppc, pkey, ptodo, pcur, starts, nver, purges, kills, drops>>
+                 ppc, pkey, ptodo, pcur, pall, starts, nver, purges, kills, drops>>
 
 (* saveToStore (may fail), then Unlock *)
 Save(r, ok) ==
@@ -373,7 +374,7 @@ Save(r, ok) ==
   /\ elock' = [elock EXCEPT ![e] = Free]
   /\ pc' = [pc EXCEPT ![r] = "end"]
   /\ UNCHANGED <<now, ticks, lru, ent, est, nextEnt, slock, rkey, rdisp, rmeth, rent, rst, rresp, rout, rttl, rsend, rver,
-                 ppc, pkey, ptodo, pcur, starts, nver, purges, kills, drops, obs>>
+                 ppc, pkey, ptodo, pcur, pall, starts, nver, purges, kills, drops, obs>>
 
 (* the middleware returns *)
 End(r) ==
@@ -386,7 +387,7 @@ End(r) ==
   /\ obs' = G(O!OEnd(obs, r, lab, err, v))
   /\ UNCHANGED <<now, ticks, lru, ent, est, nextEnt, elock, slock, store,
                  rkey, rdisp, rmeth, rent, rst, rresp, rout, rttl, rsend, rver,
-                 ppc, pkey, ptodo, pcur, starts, nver, purges, kills, drops>>
+                 ppc, pkey, ptodo, pcur, pall, starts, nver, purges, kills, drops>>
 
 -----------------------------------------------------------------------------
 (* a purge: cache.RemoveHTTPCache(name, key) *)
@@ -400,9 +401,11 @@ PurgeStart(p, k, ds) ==
   /\ ptodo' = [ptodo EXCEPT ![p] = Tail(ds)]
   /\ pcur' = [pcur EXCEPT ![p] = Head(ds)]
   /\ ppc' = [ppc EXCEPT ![p] = "purge.lock"]
+  /\ pall' = [pall EXCEPT ![p] = {ds[i] : i \in DOMAIN ds}]
+  /\ obs' = G(O!OPurgeCall(obs, {ds[i] : i \in DOMAIN ds}, k))
   /\ UNCHANGED <<now, ticks, lru, ent, est, nextEnt, elock, slock, store,
                  pc, rkey, rdisp, rmeth, rent, rst, rresp, rout, rttl, rsend, rver,
-                 starts, nver, kills, drops, obs>>
+                 starts, nver, kills, drops>>
 
 PurgeAdvance(p) ==   \* this dispatcher is done: next one, or finished
   IF ptodo[p] = <<>>
@@ -422,7 +425,8 @@ PurgeDoRemove(p, e, held) ==
           /\ ppc' = [ppc EXCEPT ![p] = "purge.delete"]
           /\ obs' = G(o1)
           /\ UNCHANGED <<ptodo, pcur>>
-     ELSE /\ obs' = G(O!OPurged(o1, d, k, TRUE))
+     ELSE /\ obs' = G(IF ptodo[p] = <<>> THEN O!OPurgeReturn(O!OPurged(o1, d, k, TRUE), pall[p], k)
+                                          ELSE O!OPurged(o1, d, k, TRUE))
           /\ PurgeAdvance(p)
           /\ slock' = [slock EXCEPT ![d][z] = Free]
 
@@ -437,7 +441,7 @@ PurgeRemove(p) ==
           /\ UNCHANGED <<lru, ent, est, ptodo, pcur, obs>>
      ELSE /\ PurgeDoRemove(p, e, FALSE)
           /\ UNCHANGED est
-  /\ UNCHANGED <<now, ticks, nextEnt, elock, store, pkey,
+  /\ UNCHANGED <<now, ticks, nextEnt, elock, store, pkey, pall,
                  pc, rkey, rdisp, rmeth, rent, rst, rresp, rout, rttl, rsend, rver,
                  starts, nver, purges, kills, drops>>
 
@@ -447,7 +451,7 @@ PurgeFence(p) ==
   /\ ppc[p] = "purge.fence" /\ elock[e] = Free
   /\ est' = [est EXCEPT ![e].removed = TRUE]
   /\ PurgeDoRemove(p, e, TRUE)
-  /\ UNCHANGED <<now, ticks, nextEnt, elock, store, pkey,
+  /\ UNCHANGED <<now, ticks, nextEnt, elock, store, pkey, pall,
                  pc, rkey, rdisp, rmeth, rent, rst, rresp, rout, rttl, rsend, rver,
                  starts, nver, purges, kills, drops>>
 
@@ -458,9 +462,10 @@ PurgeDelete(p, ok) ==
   /\ ok \in SaveResults
   /\ store' = IF ok THEN [store EXCEPT ![d][k] = NoRec] ELSE store
   /\ slock' = [slock EXCEPT ![d][z] = Free]
-  /\ obs' = G(O!OPurged(obs, d, k, ok))
+  /\ obs' = G(IF ptodo[p] = <<>> THEN O!OPurgeReturn(O!OPurged(obs, d, k, ok), pall[p], k)
+                               ELSE O!OPurged(obs, d, k, ok))
   /\ PurgeAdvance(p)
-  /\ UNCHANGED <<now, ticks, lru, ent, est, nextEnt, elock, pkey,
+  /\ UNCHANGED <<now, ticks, lru, ent, est, nextEnt, elock, pkey, pall,
                  pc, rkey, rdisp, rmeth, rent, rst, rresp, rout, rttl, rsend, rver,
                  starts, nver, purges, kills, drops>>
 
